@@ -7,11 +7,32 @@ COMMON_NOTE = ("Trusted: Lean 4.33 kernel (axioms propext, Classical.choice, Quo
                "is a transcription of the Go code whose agreement with /repo is CHECKED on every run by the correspondence harness (bounded by its "
                "generators, distribution in the evidence file); Go runtime and standard library, gogll parser engine are not modelled.")
 
+TIE = (" Tie to /repo on every run: the harness is rebuilt against the working tree, `xh facts` regenerates lean/Generated/Facts.lean "
+       "(handler table, grammar productions, builtin arities, go/ast facts) over which Proofs/Gen.lean is re-checked by kernel evaluation, and the "
+       "correspondence run executes the real library and the Lean model/spec on the same generated cases and diffs canonical results; a "
+       "disagreement is searched for an input that breaks the specification (the replay), else reported with no-failing-input-found.")
+
 CLAIMED = {
- "C03": ("Theorems (Lean 4, all node lists, no bound): the union the evaluator computes is strictly ascending, contains exactly the operands' nodes, is commutative, associative, idempotent, and count(A|B)+count(common)=count(A)+count(B); cleanup (sort+unique) is canonical. Tie: every run re-executes the real library and the Lean model/spec on generated documents and expressions and diffs canonical results; real results are also checked to be strictly monotone in Pos order.",
-         "union laws and sortedness proved on the model of exec/contextfn.go + axisselectors.go; monotonicity of arbitrary expression results is checked differentially, not yet proved"),
- "C05": ("Theorem compare_refines (Lean 4): for every string-value function, operator and pair of operand values of the four types, the transcription of the Go cascades (execEqualityExpr*, relationalCompare) equals XPath 1.0 §3.4 written as one function; corollaries: NaN unequal to everything, empty node-set false, != not the negation of =. Tie: differential run of real library vs model vs spec on generated operand pairs (node-sets, numbers incl. NaN/±0/inf, strings, booleans) in both orders.",
-         "number parsing/formatting (strconv) enters through strToNum/numToStr, modelled with exact rationals and validated differentially"),
+ "C01": ("Theorems (Lean 4, every well-formed arena = every tree satisfying the Cursor contract, every context node, all 13 axes): axis_refines — the Go-shaped axis walkers return exactly the list XPath 1.0 §2.2 defines, in axis order; axis_set_at_a_time — applying a walker to a node-set equals the sorted duplicate-free union of the per-node axes; partition (self/ancestor/descendant/following/preceding), the four dualities, root_is_ancestor, root has no parent or siblings while its children have siblings; node tests with principal node type are one shared definition (Xsel.NodeTest.apply)." + TIE,
+         "well-formedness of built trees is theorem C10.build_wf; absolute paths/abbreviations are covered by the evaluator theorems of C02/C18 and the correspondence run; name tests on the namespace axis follow the library's own rule and are outside the statement"),
+ "C02": ("Theorem exec_refines_spec (Lean 4, mutual induction over all expressions, all well-formed arenas, all contexts): the Go-shaped evaluator (set-at-a-time steps, per-context-node evaluation only for steps with predicates over several nodes) and the XPath 1.0 specification evaluator (every step per context node with proximity positions and true context size) return the same value up to the listing order of node-sets; corollaries: a numeric predicate [n] is [position() = n] (NaN, fractions, out of range select nothing), successive predicates renumber, last() is the size of the list that reached the predicate, predicates on filter expressions count in document order; regenerated no_dropped_symbol/handlers_agree show no production is evaluated with a sub-expression ignored." + TIE,
+         "the refinement theorem is stated against the specification with the recorded round() deviation (KF-round-negative-tie) and under the decidable side conditions sumSafe (sum()/lang() applied to ascending node-sets: float addition is not associative) and prefixesBound"),
+ "C03": ("Theorems (Lean 4, all node lists): the union the evaluator computes is strictly ascending, contains exactly the operands' nodes, is commutative, associative, idempotent, and count(A|B)+count(common)=count(A)+count(B); sort+unique is canonical; every axis result is strictly monotone (ascending for forward, descending for reverse axes); every node-set the model evaluator returns is duplicate-free and inside the document (eval_ok)." + TIE + " Real results are also checked to be strictly monotone in Pos() order on every generated query.",
+         "uniqueness of Pos() that deduplication relies on is theorem C10.build_pos_inj"),
+ "C04": ("Theorems (Lean 4): strval_refines — the recursive string-value walk equals the concatenation of all text descendants in document order on every well-formed tree; str_to_num_grammar — a string converts to NaN iff it is not optional XML whitespace, optional '-', Digits('.'Digits?)?|'.'Digits, optional whitespace (so exponents, '+', hex, Infinity, NaN are NaN); num_to_str_special/no_exponent — NaN, ±Infinity, '0' for both zeros, otherwise digits with at most one '.', no exponent; num_to_str_reads_back — for every finite double x, number(string(x)) = x; bool_conv for all four types; node-set conversion uses the first node in document order (firstDoc_min)." + TIE,
+         "doubles are modelled as exact rationals with a round-to-nearest-even function validated against hardware and strconv differentially; strconv.ParseFloat/FormatFloat themselves are trusted to be correctly rounded / shortest"),
+ "C05": ("Theorem compare_refines (Lean 4): for every string-value function, operator and pair of operand values of the four types, the transcription of the Go cascades (execEqualityExpr*, relationalCompare) equals XPath 1.0 §3.4 written as one function; corollaries: NaN unequal to everything, empty node-set false, != not the negation of =." + TIE,
+         "number parsing/formatting enters through strToNum/numToStr (see C04)"),
+ "C06": ("Theorems (Lean 4, all doubles as exact rationals): division by ±0 and the special-value tables are IEEE-754; mod is the exact sign-of-dividend remainder of truncating division (|r|<|b|); floor/ceiling are the mathematical ones; round_partial — round() equals floor(x+1/2) for every argument that is not a negative tie, round_negative_tie/round_counterexample characterise the recorded deviation exactly; sum is the left fold of IEEE addition, count the length; arith_total/builtin_numeric_total — no numeric operand makes any of these fail." + TIE,
+         "KNOWN FINDING KF-round-negative-tie (pinned by TestFunctionRound) is excluded as an explicit hypothesis and filtered by a narrow class; IEEE rounding `rnd` is a model validated differentially"),
+ "C07": ("Theorems (Lean 4, all strings as lists of Unicode characters, all numeric arguments): substring_spec — exactly the characters at positions q with round(p) ≤ q < round(p)+round(l) under IEEE comparison, total, NaN selects nothing; translate_spec — simultaneous mapping by first occurrence, deletion when the third argument is shorter; normalize_space_spec — words joined by single spaces, only #x20 #x9 #xD #xA are whitespace, idempotent; starts-with/contains/substring-before/after characterised by list decomposition; string-length counts characters." + TIE + " The real results are additionally checked to be valid UTF-8.",
+         "the rounding of substring's arguments inherits KF-round-negative-tie; Go strings are bytes — the byte/character correspondence is checked differentially, not proved"),
+ "C10": ("Theorems (Lean 4, ALL event sequences, no length bound): build_pos_eq_index/inj/eq_zero_iff — Pos() is unique, 0 only for the root, increasing in document order; build_parent_lt, build_mem_*/build_listed/build_nss_owner — Parent/Children/Attributes/Namespaces mutually consistent, each element owns its namespace nodes; build_preorder; build_wf — for every stream in which namespaces precede attributes precede children (Ordered) the tree satisfies the whole Cursor contract (wfb), with decide-checked counter-examples when it is not; build_mirrors — the tree mirrors the stream's nesting and in-scope namespace bindings; regenerated builder_not_event_recursive." + TIE + " A 10^6-event flat stream is built in a child process with an 8 MB stack limit.",
+         "stack depth is established by the regenerated no-self-recursion fact plus the runtime stack-limit run, not by a theorem about Go frames"),
+ "C16": ("Theorems (Lean 4, all JSON values, any nesting, any number of top-level values): json_refines — the model of the pull-parser adapter (frame stack with onField/emitEndElement flags) emits exactly the events of the README tree; json_truncated_errors — every proper non-empty prefix of a value's token stream is an error; json_texts_are_leaves — one text event per scalar, in order, never merged." + TIE + " Number rendering (FormatFloat 'g') is modelled and compared; malformed and truncated texts must be errors.",
+         "encoding/json's tokenizer is trusted; its token stream is recorded and fed to the model"),
+ "C18": ("Theorems (Lean 4): exec_seed — a query starts with the given node as context node, position 1, size 1; compose_path — the nodes selected by P/R are the union of the nodes R selects from each node P selects (spec evaluator; for the Go-shaped evaluator via exec_refines_spec); fn_in_path_arg — P/f() equals f(P) for the seven context-dependent builtins." + TIE,
+         "same side conditions as C02"),
 }
 
 def entry(pid, text, note):
